@@ -81,6 +81,7 @@ func lemmaEncapDecap(d DHCPv6, mType MessageType, link, peer net.IP) {
 //@   ensures[replaced] forall i int :: {old((*o)[i])} old(firstWithCode(*o, c0, i)) ==> len(*o) == L0 && (*o)[i] == option && (forall j int :: {(*o)[j]} 0 <= j && j < L0 && j != i ==> (*o)[j] == old((*o)[j]))
 //@   ensures[appended] old(noneWithCode(*o, c0)) ==> len(*o) == L0 + 1 && (*o)[L0] == option && (forall j int :: {(*o)[j]} 0 <= j && j < L0 ==> (*o)[j] == old((*o)[j]))
 //@   ensures[nonnil] old(optsNonNil(*o)) && option != nil ==> optsNonNil(*o)
+//@   ensures[present] !(forall i int :: {(*o)[i]} 0 <= i && i < len(*o) ==> (*o)[i] != option)
 //@   loop 0 invariant[before] forall j int :: {(*o)[j]} 0 <= j && j <= rangeindex ==> (*o)[j].Code() != option.Code()
 //@   loop 0 invariant[code] option.Code() == c0
 //@   loop 0 invariant[same] *o == old(*o) && (forall j int :: {(*o)[j]} {old((*o)[j])} 0 <= j && j < L0 ==> (*o)[j] == old((*o)[j]))
@@ -210,3 +211,20 @@ func ghostMark(k int) int { return k }
 //@   loop 1 invariant[heap] sameheap()
 //@   loop 1 invariant[non-nil] l != nil
 //@   loop 1 invariant[on-chain] old(relayChain(l)) && index < ghostDepth(0) ==> 0 <= i && i <= index + 1 && l == ghostChain(i) && ghostMark(i) == i
+
+// ---------- the client's SOLICIT (property C13) ----------
+
+// the clock reading put into the DUID: any value (environment)
+//@ contract GetTime
+//@   trusted
+
+// NewSolicit without modifiers: a fresh SOLICIT whose first option is the client identifier, a DUID-LLT made of the
+// given hardware address, followed by the option request and the elapsed time; the IA_NA added last (WithIAID)
+// leaves the message type alone
+//@ contract NewSolicit
+//@   inlines WithIAID
+//@   unroll 2
+//@   requires len(modifiers) == 0
+//@   ensures[solicit] err == nil ==> result0 != nil && fresh(result0) && int(result0.MessageType) == 1
+//@   ensures[client-id] err == nil ==> len(result0.Options.Options) >= 3 && typeIs(result0.Options.Options[0], *optClientID) && typeIs(result0.Options.Options[0].(*optClientID).DUID, *DUIDLLT) && result0.Options.Options[0].(*optClientID).DUID.(*DUIDLLT).LinkLayerAddr == hwaddr
+//@   ensures[short-address] len(hwaddr) < 4 ==> err != nil
